@@ -7,7 +7,7 @@ import math
 from typing import Dict, List, Optional, Set, Tuple
 
 from ..callgraph import SRC_ISLA
-from ..core import Unrecognised, NotConstant, call_name, calls_in, dotted, enclosing_def, facts, fold, has_fact, module_of, parent, qual, site, src, walk_local
+from ..core import Unrecognised, NotConstant, origins, call_name, calls_in, dotted, enclosing_def, facts, fold, has_fact, module_of, parent, qual, site, src, walk_local
 
 DT = "src/isla/derivation_tree.py"
 TRIE = "src/isla/trie.py"
@@ -301,20 +301,28 @@ def rule_t1(ctx):
               f"encoder uses integer constants {sorted(ce)}, decoder {sorted(cd)}: offset / radix / escape disagree, decoded paths differ from encoded ones", f"constants {sorted(ce)} on both sides")
     # relative path cut
     multi = len(chars) > 1
+    uses_len_field = False
     for meth in ("values", "items"):
         f = ctx.repo.func(TRIE, f"SubtreesTrie.{meth}", "C16.T1")
         cuts = [n for n in ast.walk(f) if isinstance(n, ast.Subscript) and isinstance(n.slice, ast.Slice) and src(n.value) == "value[0]"]
-        if len(cuts) != 1:
+        if not cuts:
+            if any(call_name(c) in ("self.items", "self.values") for c in calls_in(f)):
+                ctx.ok("T1-relative-path", f"{TRIE}:SubtreesTrie.{meth}", "delegates to the sibling view", site(f), "no own cut")
+                continue
             raise Unrecognised("C16.T1", f"{TRIE}:SubtreesTrie.{meth}", "relative-path slice value[0][k:] not found")
-        k = src(cuts[0].slice.lower)
-        by_path_len = k == "self.root_path_len"
-        by_key_len = k == "len(self.root_path) - 1"
-        if not (by_path_len or by_key_len):
-            raise Unrecognised("C16.T1", f"{TRIE}:SubtreesTrie.{meth}", f"cut {k} not understood")
-        ctx.check(by_path_len or not multi, "T1-relative-path", f"{TRIE}:SubtreesTrie.{meth}", f"cut at {k}", site(cuts[0]),
-                  "the encoder emits more than one character per index, so the key length is not the path length: relative paths of a sub-trie are cut at the wrong place",
-                  "relative paths cut at the root path's length")
-    if multi:
+        for cut in cuts:
+            k = src(cut.slice.lower) if cut.slice.lower is not None else ""
+            o = origins(f, cut.slice.lower) if cut.slice.lower is not None else set()
+            by_path_len = "self.root_path_len" in o
+            by_key_len = ("self.root_path" in o) and not by_path_len
+            if not (by_path_len or by_key_len):
+                raise Unrecognised("C16.T1", f"{TRIE}:SubtreesTrie.{meth}", f"cut {k} not understood")
+            uses_len_field = uses_len_field or by_path_len
+            ctx.check(by_path_len or not multi, "T1-relative-path", f"{TRIE}:SubtreesTrie.{meth}", f"cut at {k}", site(cut),
+                      "the encoder emits more than one character per index (indices >= 27), so the length of the encoded root key is not the length of the root path: relative paths of a "
+                      "sub-trie whose root path contains such an index are cut at the wrong place (nested quantifiers then address the wrong nodes)",
+                      "relative paths cut at the root path's length")
+    if multi and uses_len_field:
         lens = [n for n in walk_local(init) if isinstance(n, ast.Assign) and src(n.targets[0]) == "self.root_path_len"] + [n for n in walk_local(init) if isinstance(n, ast.AnnAssign) and src(n.target) == "self.root_path_len"]
         vals = sorted(src(n.value) for n in lens)
         ctx.check(vals == ["0", "len(root_path)"], "T1-relative-path", f"{TRIE}:SubtreesTrie.__init__", "root_path_len = len(root_path)", site(init), f"root_path_len assigned {vals}", "length of the root path")
